@@ -13,6 +13,12 @@
 (*   emb    = parser.embedded_objects is not None                          *)
 (*   cyc    = the class declared last (what `of_prev` names) is its own    *)
 (*            ancestor in the repository                                   *)
+(*   reg    = parser.classnames holds the name of a class that could not   *)
+(*            be created                                                   *)
+(*   nsinit = parser.classnames has an entry for the target namespace      *)
+(*            (compile_string creates it for the namespace it is called    *)
+(*            with - also for an include -, a created class or a compiled  *)
+(*            instance creates it on the fly)                              *)
 (*                                                                         *)
 (* A compile call pushes a frame; `#pragma include` (p_compilerDirective ->*)
 (* compile_file -> compile_string) pushes another one; a normal return     *)
@@ -38,9 +44,9 @@ EXTENDS MofCompileImplOps
 CONSTANTS MaxProd, MaxDepth, OnlyKinds
 
 VARIABLES ses, phase, stack, pfile, pmof, emb, nsw, cyc, out, errfile,
-          errowner, lost
+          errowner, lost, reg, nsinit
 vars == <<ses, phase, stack, pfile, pmof, emb, nsw, cyc, out, errfile,
-          errowner, lost>>
+          errowner, lost, reg, nsinit>>
 
 Parts == SessionParts(MaxProd, OnlyKinds)
 
@@ -48,7 +54,8 @@ GoodText == <<PlainOf("qualDecl"), PlainOf("class"), PlainOf("instance")>>
 GoodFile == 9
 EmbText == 50
 
-ProdsOf(f) == IF f = 1 THEN ses.main ELSE IF f = 2 THEN ses.inc ELSE GoodText
+ProdsOf(f) == IF f = 1 THEN ses.main ELSE IF f = 2 THEN ses.inc
+              ELSE GoodText \o ses.good
 
 Frame(f, saved, savedmof) ==
   [f |-> f, pc |-> 1, saved |-> saved, savedmof |-> savedmof]
@@ -59,6 +66,7 @@ Init == /\ \E i \in DOMAIN Parts : ses \in Parts[i]
         /\ pfile = 1 /\ pmof = 1
         /\ emb = FALSE /\ nsw = FALSE /\ lost = FALSE /\ cyc = FALSE
         /\ out = "" /\ errfile = 0 /\ errowner = 0
+        /\ reg = FALSE /\ nsinit = TRUE
 
 Top == stack[Len(stack)]
 OnStack(f) == \E i \in DOMAIN stack : stack[i].f = f
@@ -75,7 +83,8 @@ Raise(x, p) ==
   /\ errowner' = Top.f
   /\ stack' = << >>
   /\ emb' = IF EmbRuns(p) /\ ~EmbFinally THEN TRUE ELSE emb
-  /\ UNCHANGED <<ses, phase, pfile, pmof, nsw, cyc, lost>>
+  /\ reg' = (reg \/ (~RegisterAfterCreate /\ ReachesCreate(p)))
+  /\ UNCHANGED <<ses, phase, pfile, pmof, nsw, cyc, lost, nsinit>>
 
 Return ==
   /\ Top.pc > Len(ProdsOf(Top.f))
@@ -83,7 +92,8 @@ Return ==
   /\ pfile' = IF RestoreOnReturn THEN Top.saved ELSE pfile
   /\ pmof' = IF RestoreOnReturn THEN Top.savedmof ELSE pmof
   /\ out' = IF Len(stack) = 1 THEN "ok" ELSE out
-  /\ UNCHANGED <<ses, phase, emb, nsw, cyc, errfile, errowner, lost>>
+  /\ UNCHANGED <<ses, phase, emb, nsw, cyc, errfile, errowner, lost, reg,
+                 nsinit>>
 
 IncludeTarget(p) ==
   IF p.v = "inc2" THEN 2 ELSE IF p.v = "mutual" THEN 1 ELSE Top.f
@@ -94,13 +104,19 @@ Step ==
      IF p.k = "include" /\ ((p.d = "none" /\ p.v = "inc2") \/
                             (p.d = "dependency" /\ p.v \in {"self", "mutual"}))
      THEN LET g == IncludeTarget(p) IN
-          IF IncludeGuard /\ OnStack(g) THEN Raise("MOFParseError", p)
+          \* the guard compares the key of the file with the keys of the
+          \* files in progress; a spelled (non-canonical) path is a new key
+          \* unless the keys are canonical paths
+          IF IncludeGuard /\ OnStack(g) /\ (GuardCanonical \/ p.a = 0)
+          THEN Raise("MOFParseError", p)
           ELSE IF Len(stack) >= MaxDepth THEN Raise("RecursionError", p)
           ELSE /\ stack' = Append(Bump, Frame(g, pfile, pmof))
                /\ pfile' = g /\ pmof' = g
+               /\ nsinit' = TRUE     \* compile_string(mof, target namespace)
                /\ UNCHANGED <<ses, phase, emb, nsw, cyc, out, errfile,
-                              errowner, lost>>
-     ELSE \E r \in ImplProd(p, [nsw |-> nsw, emb |-> emb, cyc |-> cyc]) :
+                              errowner, lost, reg>>
+     ELSE \E r \in ImplProd(p, [nsw |-> nsw, emb |-> emb, cyc |-> cyc,
+                                reg |-> reg, nsinit |-> nsinit]) :
             IF r = "ok"
             THEN /\ stack' = Bump
                  /\ nsw' = (nsw \/ (p.k = "namespace" /\ p.d = "none"
@@ -114,7 +130,15 @@ Step ==
                  /\ pmof' = IF EmbList(p) /\ ~EmbRestoreAll THEN EmbText
                             ELSE pmof
                  /\ cyc' = CycAfter(p, cyc)
-                 /\ UNCHANGED <<ses, phase, pfile, out, errfile, errowner>>
+                 /\ nsinit' = IF p.k = "namespace" /\ p.d = "none"
+                               THEN IF p.v \in {"other", "other_full"}
+                                    THEN NsCachesInit
+                                    ELSE IF p.v \in {"same", "leading_slash"}
+                                    THEN TRUE ELSE nsinit
+                               ELSE IF p.k \in {"class", "instance"}
+                               THEN TRUE ELSE nsinit
+                 /\ UNCHANGED <<ses, phase, pfile, out, errfile, errowner,
+                                reg>>
             ELSE Raise(r, p)
 
 Running == phase \in {"bad", "good"} /\ out = "" /\ stack # << >>
@@ -126,12 +150,13 @@ StartGood ==
   /\ pfile' = GoodFile /\ pmof' = GoodFile
   /\ nsw' = FALSE          \* compile_string sets target_namespace from ns
   /\ out' = "" /\ lost' = FALSE /\ cyc' = FALSE
-  /\ UNCHANGED <<ses, emb, errfile, errowner>>
+  /\ nsinit' = TRUE
+  /\ UNCHANGED <<ses, emb, errfile, errowner, reg>>
 
 Finish == /\ phase = "good" /\ out # ""
           /\ phase' = "end"
           /\ UNCHANGED <<ses, stack, pfile, pmof, emb, nsw, cyc, out, errfile,
-                         errowner, lost>>
+                         errowner, lost, reg, nsinit>>
 
 Next == (Running /\ (Return \/ Step)) \/ StartGood \/ Finish
 Spec == Init /\ [][Next]_vars /\ WF_vars(Next)
@@ -139,7 +164,8 @@ Spec == Init /\ [][Next]_vars /\ WF_vars(Next)
 (* ---- properties ---------------------------------------------------------*)
 TypeOK == /\ out \in {""} \cup AnyMof \cup
                      {"OSError", "AttributeError", "IndexError", "ValueError",
-                      "TypeError", "CIMError", "RecursionError"}
+                      "TypeError", "CIMError", "RecursionError", "KeyError",
+                      "OverflowError"}
           /\ Len(stack) <= MaxDepth
 
 ImplRefinesReq == (phase = "bad" /\ out # "") => out \in Admissible(ses)
